@@ -51,6 +51,14 @@ Verdict(ev) ==
          IF ev.c \in V3Versions /\ ev.str # ev.c THEN "version:" \o ev.pkg \o " prints " \o ev.c \o " as '" \o ev.str \o "'"
          ELSE IF ev.c = "?" /\ ev.str \in V3Versions THEN "version:" \o ev.pkg \o " prints unknown as " \o ev.str
          ELSE "ok"
+    \* beyond C20 (MODEL-DRIFT diagnostics): IsDefined of the v2 optional metrics, Severity.String
+    [] ev.k = "isdefined" ->
+         IF ev.val = (ev.c # "?" /\ ev.c # "ND") THEN "ok"      \* as coded: also true for integers that are no constant
+         ELSE "drift:" \o ev.fam \o " " \o ev.m \o " IsDefined(" \o ev.c \o ")"
+    [] ev.k = "sevstr" ->
+         LET names == IF ev.fam = "v3" THEN <<"None", "Low", "Medium", "High", "Critical">> ELSE <<"Low", "Medium", "High">>
+             want == IF ev.c \in 1..Len(names) THEN names[ev.c] ELSE "Unknown"
+         IN IF ev.str = want THEN "ok" ELSE "drift:" \o ev.fam \o " Severity(" \o ToString(ev.c) \o ").String() = '" \o ev.str \o "'"
     [] OTHER -> "harness:unknown event"
 
 Init == LoadTrace /\ TraceInit
